@@ -267,10 +267,13 @@ MainLoop:
 				// parks the session in AdminDown until a local AdminUp); it takes the local session
 				// to Down, exactly like an expired detection timer does.
 				s.transition(ctx, eventTimer)
-				continue
+			} else {
+				s.transition(ctx, event(s.remoteState))
 			}
-			s.transition(ctx, event(s.remoteState))
-			if oldState == stateDown && s.getLocalState() != stateDown {
+			// As before, a packet received while Down is answered promptly, also when it announces
+			// AdminDown (which used to leave the Down state).
+			if oldState == stateDown &&
+				(s.getLocalState() != stateDown || s.remoteState == stateAdminDown) {
 				s.desiredMinTXInterval = s.DesiredMinTxInterval
 				// Cancel any pending send to accelerate the timer.
 				if !sendTimer.Stop() {
